@@ -91,6 +91,10 @@ try:
             prev = json.load(open(old))
             meta["breaks"] = prev.get("breaks")
             meta["needs_to_manifest"] = prev.get("needs_to_manifest")
+            if skip_suite and (prev.get("confirmed") or {}).get("pinned_suite", "").startswith("stable_pass"):
+                # a later re-run of the checks only: keep the suite record of the confirmation and what the checks said then
+                meta["confirmed"]["pinned_suite"] = prev["confirmed"]["pinned_suite"]
+                meta["at_arrival"] = prev.get("at_arrival") or {"caught_by": prev.get("caught_by"), "checks_quick": prev.get("checks_quick")}
         json.dump(meta, open(old, "w"), indent=1)
 finally:
     subprocess.run(["git", "-C", "/repo", "worktree", "remove", "--force", repo], capture_output=True)
